@@ -19,10 +19,9 @@ namespace TD.C14
 abbrev Str := List Nat
 
 /-- `dat` = `ExceptionDATRead` (any `ExceptionDAT`); `assertion` = a failed `assert`; `typeError` = storing a
-non-number into a float64 column; `overflowError` = `datetime.date()` given an integer that does not fit a C int
-(escapes both `except ValueError` clauses — finding F-C14-2). -/
+non-number into a float64 column. Only `dat` is reachable (`Props.errors_are_dat`). -/
 inductive Err where
-  | dat | assertion | typeError | overflowError
+  | dat | assertion | typeError
   deriving Repr, DecidableEq
 
 /-! ### character classes -/
@@ -228,21 +227,9 @@ def daysInMonth (y m : Nat) : Nat :=
 /-- the argument check of `datetime.date(y, m, d)` -/
 def dateOk (y m d : Nat) : Bool := 1 ≤ y && y ≤ 9999 && 1 ≤ m && m ≤ 12 && 1 ≤ d && d ≤ daysInMonth y m
 
-/-- proleptic Gregorian ordinal (1 = 0001-01-01) → (year, month, day): CPython `ord_to_ymd`, with the month found by
-comparing against the cumulative month lengths. -/
-def civilOfOrdinal (ord : Nat) : Nat × Nat × Nat :=
-  let n := ord - 1
-  let n400 := n / 146097
-  let n := n % 146097
-  let n100 := n / 36524
-  let n := n % 36524
-  let n4 := n / 1461
-  let n := n % 1461
-  let n1 := n / 365
-  let n := n % 365
-  let year := n400 * 400 + 1 + n100 * 100 + n4 * 4 + n1
-  if n1 = 4 ∨ n100 = 4 then (year - 1, 12, 31) else
-  let L := if n1 = 3 ∧ (n4 ≠ 24 ∨ n100 = 3) then 1 else 0
+/-- day-of-year `n` (0-based) of a year with leap flag `L` → (year, month, day), by comparing against the cumulative
+month lengths. -/
+def monthDay (year L n : Nat) : Nat × Nat × Nat :=
   if n < 31 then (year, 1, n + 1)
   else if n < 59 + L then (year, 2, n - 31 + 1)
   else if n < 90 + L then (year, 3, n - (59 + L) + 1)
@@ -255,6 +242,21 @@ def civilOfOrdinal (ord : Nat) : Nat × Nat × Nat :=
   else if n < 304 + L then (year, 10, n - (273 + L) + 1)
   else if n < 334 + L then (year, 11, n - (304 + L) + 1)
   else (year, 12, n - (334 + L) + 1)
+
+/-- proleptic Gregorian ordinal (1 = 0001-01-01) → (year, month, day): CPython `ord_to_ymd` (400/100/4/1-year cycles). -/
+def civilOfOrdinal (ord : Nat) : Nat × Nat × Nat :=
+  let n0 := ord - 1
+  let n400 := n0 / 146097
+  let r400 := n0 % 146097
+  let n100 := r400 / 36524
+  let r100 := r400 % 36524
+  let n4 := r100 / 1461
+  let r4 := r100 % 1461
+  let n1 := r4 / 365
+  let n := r4 % 365
+  let year := n400 * 400 + 1 + n100 * 100 + n4 * 4 + n1
+  if n1 = 4 ∨ n100 = 4 then (year - 1, 12, 31)
+  else monthDay year (if n1 = 3 ∧ (n4 ≠ 24 ∨ n100 = 3) then 1 else 0) n
 
 inductive Value where
   | float (f : PyFloat)
@@ -313,8 +315,9 @@ def convDate (tok : Str) : Except Err Value :=
   | none => .error .dat
   | some (day, mon, yr) =>
     let year := if yr > 50 then yr + 1900 else yr + 2000
-    if year > 2147483647 ∨ day > 2147483647 then .error .overflowError    -- "iii" argument parsing of datetime.date
-    else if dateOk year mon day then .ok (.date year mon day) else .error .dat
+    -- `datetime.date(yr, mon, day)`: OverflowError (an argument above 2^31-1) and ValueError (range) are both re-raised
+    -- as ExceptionDATRead; `dateOk` is false in either case
+    if dateOk year mon day then .ok (.date year mon day) else .error .dat
 
 /-- `%H` = `(2[0-3]|[0-1]\d|\d)`: all ways to match at the head of `l`, in the order the regex engine tries them. -/
 def reH (l : Str) : List (Nat × Str) :=
@@ -451,7 +454,7 @@ def loop (brk : Bool) : St → List Str → Except Err St
       else
         match scanDecl line with
         | some (n, d, u) =>
-          if n ∈ st.defined then .error .dat      -- as coded: tests `channels_defined`, which is still empty here
+          if (lookup st.declared n).isSome then .error .dat      -- duplicate declaration
           else loop brk { st with declared := (n, joinSp (splitWs d), u) :: st.declared } rest
         | none => .error .dat
     else
